@@ -100,6 +100,17 @@ func genC05(c *Ctx) *Plan {
 							p.P["renamed"] = 1
 							p.Cfg.DisableTcpPings = false
 						} else {
+							if r.chance(0.25) {
+								// the process comes back quickly and joins nobody (it waits to be contacted): its
+								// fresh instance lists only itself while the others still list - and soon suspect -
+								// the name; everything it has to say travels on the acks it sends to its probers
+								l = nil
+								rt = at + 20_000_000 + r.i64n(int64(sMin(p.Cfg, n))+1) // anywhere inside the others' suspicion window
+								if rt >= tf-1_000_000 {
+									rt = tf - 2_000_000
+								}
+								p.P["restart_without_join"] = 1
+							}
 							p.Ops = append(p.Ops, Op{At: rt, Kind: "restart", Node: node, L: l})
 							crashed[node] = false
 						}
@@ -347,8 +358,36 @@ func execC05(c *Ctx) {
 	}
 	// Known finding C05/connected-only-via-suspect-record: the lists-graph is connected at T_f
 	// only through records that are *suspect* (a suspicion that began during the faults).
+	// heldDead: h holds (or held, before reaping it) peer as dead/left - as opposed to a fresh
+	// instance that simply never heard of peer. The known findings below are all about a side that
+	// holds the other side *dead* and therefore never contacts it; an instance that does not know
+	// the other side at all (restart whose join failed) is refuted through the acks it sends to
+	// its probers and must converge.
+	heldDead := func(h *SimNode, peer string) bool {
+		v := h.view(peer)
+		if v.Present {
+			return v.State == StateDead || v.State == StateLeft
+		}
+		h.mu.Lock()
+		defer h.mu.Unlock()
+		for _, e := range h.events[h.genStart:] {
+			if e.Name == peer {
+				return true // knew it in this life and has reaped the record since
+			}
+		}
+		return false
+	}
+	// neverKnew: some live node lists a live peer that has never heard of it in its current life
+	neverKnew := false
+	for _, h := range live {
+		for _, peer := range h.memberNames() {
+			if o := liveNames[peer]; o != nil && o != h && !o.view(h.name).Present && !heldDead(o, h.name) {
+				neverKnew = true
+			}
+		}
+	}
 	sig := ""
-	if pre && !connected(true) {
+	if pre && !connected(true) && !neverKnew {
 		sig = "C05/connected-only-via-suspect-record"
 		c.Reach("connected_only_via_suspect_record")
 	}
@@ -358,7 +397,7 @@ func execC05(c *Ctx) {
 	// stale alive record wherever it arrives, and the accused ignores it (k is below its own
 	// incarnation) instead of refuting again; the refutation it issued earlier has used up its
 	// retransmissions, and the accused never contacts the holder, which it records as dead.
-	if pre && sig == "" {
+	if pre && sig == "" && !neverKnew {
 		accusedAt := func(peer string, k uint32) bool {
 			for _, n := range live {
 				v := n.view(peer)
@@ -391,7 +430,7 @@ func execC05(c *Ctx) {
 	// listing side keeps its record only as long as no probe started during the faults fails after
 	// T_f (or any other suspicion arises), because the refutation is gossiped by a node that
 	// believes the suspecting node dead and reaches it only by chance.
-	if pre && sig == "" {
+	if pre && sig == "" && !neverKnew {
 		mutual := connectedBy(func(h *SimNode, peer string) bool {
 			owner := liveNames[peer]
 			if owner == nil || owner.m == nil {
@@ -515,6 +554,9 @@ func execC05(c *Ctx) {
 	}
 	if p.param("renamed", 0) == 1 {
 		c.Reach("restart_under_new_name")
+	}
+	if p.param("restart_without_join", 0) == 1 {
+		c.Reach("restart_without_join")
 	}
 	c.Res.Faults["goroutine_descheduled"] += c.Sim.frozen
 	c.Res.Nontrivial = pre && len(live) >= 2 && (len(cx.cl.net.faults) > 0)
